@@ -782,17 +782,23 @@ func ruleC03Pool(r *Run) {
 	// the pool's New returns *Context with the router set
 	newFn := w.Fn("rux", "New")
 	okNew := false
-	for _, a := range newFn.AnonFuncs {
+	ctors := poolCtorFns(w)
+	for _, a := range ctors {
+		okThis := false
 		for _, b := range a.Blocks {
 			if len(b.Instrs) > 0 {
 				if ret, ok := b.Instrs[len(b.Instrs)-1].(*ssa.Return); ok && len(ret.Results) == 1 {
 					if mi, ok := ret.Results[0].(*ssa.MakeInterface); ok && isNamedPtr(mi.X.Type(), w.Named("rux", "Context")) {
 						if _, isAlloc := mi.X.(*ssa.Alloc); isAlloc {
-							okNew = true
+							okThis = true
 						}
 					}
 				}
 			}
+		}
+		okNew = okThis
+		if !okThis {
+			break
 		}
 	}
 	r.Check(rule, "rux.New:ctxPool.New", newFn.Pos(), okNew, "the pool constructor returns a freshly allocated *Context")
@@ -965,7 +971,59 @@ func init() {
 			{"C03-EFF", ruleC03Eff},
 			{"C03-LOCK", ruleCacheLock("C03-LOCK")},
 			{"C03-POOL", ruleC03Pool},
+			{"C10-RESET", ruleC10Reset},
 			{"PHASE", rulePhase("PHASE")},
 		},
 	})
+}
+
+// poolCtorFns: the functions installed as Router.ctxPool.New — a function literal, or a method
+// installed as a method value (then the method itself, behind go/ssa's bound-method wrapper).
+func poolCtorFns(w *World) []*ssa.Function {
+	poolF := w.Field("rux", "Router", "ctxPool")
+	var out []*ssa.Function
+	for _, f := range w.Funcs {
+		eachInstr(f, func(in ssa.Instruction) {
+			st, ok := in.(*ssa.Store)
+			if !ok {
+				return
+			}
+			fa, isFA := st.Addr.(*ssa.FieldAddr)
+			if !isFA || fieldName(fa.X.Type(), fa.Field) != "New" || !unwrapAddr(fa.X).hasField(poolF) {
+				return
+			}
+			v := st.Val
+			if ct, ok := v.(*ssa.ChangeType); ok {
+				v = ct.X
+			}
+			var fn *ssa.Function
+			switch x := v.(type) {
+			case *ssa.MakeClosure:
+				fn, _ = x.Fn.(*ssa.Function)
+			case *ssa.Function:
+				fn = x
+			}
+			if fn == nil {
+				return
+			}
+			if fn.Synthetic != "" {
+				// bound-method wrapper: the method it forwards to
+				var target *ssa.Function
+				for _, b := range fn.Blocks {
+					for _, x := range b.Instrs {
+						if c, ok := x.(*ssa.Call); ok {
+							if sc := staticCallee(c); sc != nil && w.InModule(sc) {
+								target = sc
+							}
+						}
+					}
+				}
+				if target != nil {
+					fn = target
+				}
+			}
+			out = append(out, fn)
+		})
+	}
+	return out
 }
